@@ -1,4 +1,6 @@
 """C01 - encode then decode returns the original message (DESIGN.md section 4, C01)."""
+import numpy as np
+
 from vlib import clock, graphs as G, gens, oracles
 from vlib.base import import_dsw
 from vlib.coding import (table_of, rand_table_spec, encode_budget, decode_budget, monitored, ArgGuard, freeze_args,
@@ -12,7 +14,7 @@ LEVEL_TEXT = ("Held on every generated (graph, start, message, mode, table, chec
               "by construction and have floors below which the run is inconclusive.")
 LEVEL_NOTE = ("Trusts the harness's walk oracle and graph pruning routine; graphs of order <= 4 (quick) / 6 (thorough), messages <= 400 (quick) / 2048 (thorough) bits; "
               "numpy bool messages excluded as unsupported input.")
-PLAN = {"quick": dict(shards=16, budget=40), "thorough": dict(shards=32, budget=420)}
+PLAN = {"quick": dict(shards=16, budget=75), "thorough": dict(shards=32, budget=420)}
 RULE = ("Client-side history of two events per case: s = encode(m, G, v, mode, table, vt) then decode(s, len(m), G, v, "
         "mode, table, check) on the real functions, under the JUMP clock, with read-only numpy arguments and argument/"
         "global digests. Graphs: random arc subsets of the order-k de Bruijn graph pruned by an independent fixed-point "
@@ -36,9 +38,10 @@ def setup(ctx):
 
 def generate(ctx):
     rng = ctx.rng
+    yield from _more(ctx)
     ks = ctx.pick([1, 2, 2, 3, 3, 4], [1, 2, 2, 3, 3, 4, 4, 5, 5, 6])
     max_len = ctx.pick(64, 256)
-    n_graphs = ctx.pick(150, 1200)
+    n_graphs = ctx.pick(110, 1200)
     for gi in range(n_graphs):
         k = rng.choice(ks)
         fast = rng.random() < 0.45
@@ -64,20 +67,100 @@ def generate(ctx):
             for _ in range(per_start):
                 bits, mclass = gens.message(rng, max_len if rng.random() < 0.92 else ctx.pick(400, 2048) if rng.random() < 0.3 else ctx.pick(160, 700))
                 yield "roundtrip", dict(gcase, start=int(start), bits=bits, fast=fast, table=rand_table_spec(rng),
+                                        layout=rng.choice([None] * 8 + ["F", "strided"]),
+                                        wtype=rng.choice(["int"] * 6 + ["int64", "uint16", "uint64"]),
                                         path=rng.random() < 0.1, verbose=rng.random() < 0.05, npstart=rng.random() < 0.5,
                                         vt=rng.choice(VTS) if rng.random() < 0.7 else rng.randint(1, 70), dtype=rng.choice(DTYPES), mclass=mclass, fam=fam)
 
 
-def check_roundtrip(ctx, case):
+def _more(ctx):
+    """Long messages (beyond 2100 bits, where the int<->str trap bites), buffer twins and edit sequences."""
+    rng = ctx.rng
+    for _ in range(ctx.pick(1, 4)):
+        k = rng.choice([1, 2, 3])
+        acc = G.complete(k) if rng.random() < 0.5 else gens.arc_graph(rng, k)
+        if acc is None:
+            continue
+        start = rng.choice(G.live_vertices(acc))
+        bits, _c = gens.message(rng, 8, "long")
+        yield "roundtrip", dict(gens.graph_case(acc, k), start=int(start), bits=bits, fast=False, table=None, vt=rng.choice([0, 3]),
+                                dtype="int64", mclass="long", fam="long")
+    for _ in range(ctx.pick(6, 40)):
+        # buffer twins: a uint8 message whose raw bytes equal those of a short int64 message, encoded one after the other
+        k = rng.choice([1, 2, 3])
+        acc = gens.arc_graph(rng, k)
+        if acc is None:
+            continue
+        start = int(rng.choice(G.live_vertices(acc)))
+        short = [rng.randint(0, 1) for _ in range(rng.randint(1, 6))]
+        raw = list(np.array(short, dtype="int64").tobytes())
+        if all(b in (0, 1) for b in raw):
+            base = dict(gens.graph_case(acc, k), start=start, fast=False, table=None, vt=0, fam="twin")
+            first, second = (raw, "uint8"), (short, "int64")
+            if rng.random() < 0.5:
+                first, second = second, first
+            yield "roundtrip", dict(base, bits=first[0], dtype=first[1], mclass="twin")
+            yield "roundtrip", dict(base, bits=second[0], dtype=second[1], mclass="twin")
+    for _ in range(ctx.pick(25, 250)):
+        k = rng.choice([1, 2, 2, 3])
+        fast = rng.random() < 0.4
+        states = []
+        for _s in range(rng.randint(2, 4)):
+            a = gens.arc_graph(rng, k, forbid3=fast)
+            if a is not None:
+                states.append(dict(arcs=G.acc_to_hex(a), start=int(rng.choice(G.live_vertices(a)))))
+        if len(states) >= 2:
+            yield "edit_sequence", dict(k=k, fast=fast, states=states, table=rand_table_spec(rng), vt=rng.choice([0, 0, 3]),
+                                        msgs=[gens.message(rng, 40)[0] for _ in states], dtype="int64")
+
+
+def check_edit_sequence(ctx, case):
+    """G2: one accessor object, overwritten in place between round trips (`accessor[...] = other graph`, the way
+    remove_nasty_arc or a reused buffer changes it).  Every round trip must be the one of the *current* content."""
+    k = case["k"]
+    live = G.hex_to_acc(k, case["states"][0]["arcs"])     # the one object the library sees throughout
+    shuf_obj = table_of(case["table"], k)
+    shuf_before = None if shuf_obj is None else shuf_obj.copy()
+    for i, st in enumerate(case["states"]):
+        live[...] = G.hex_to_acc(k, st["arcs"])
+        sub = dict(k=k, arcs=st["arcs"], start=st["start"], bits=case["msgs"][i], fast=case["fast"], table=case["table"],
+                   vt=case["vt"], dtype=case["dtype"], mclass="edit-sequence", fam="edit-sequence")
+        before = ctx.violation_count
+        check_roundtrip(ctx, sub, acc_obj=live, name="edit_sequence", shuf_obj=shuf_obj)
+        if shuf_obj is not None and not np.array_equal(shuf_obj, shuf_before):
+            ctx.fail("argument-modified", "the shuffle table was changed in place by encode/decode (state %d)" % i)
+        if ctx.violation_count > before:
+            ctx.violations[-1]["check"], ctx.violations[-1]["case"] = "edit_sequence", case
+            break
+        ctx.evaluations += 1
+    ctx.cls("edit sequences (same accessor object overwritten in place)")
+    ctx.done("edit_sequence", case, True)
+
+
+def check_roundtrip(ctx, case, acc_obj=None, name="roundtrip", shuf_obj=None):
+    """acc_obj: the live accessor object of an edit sequence (passed as is, so that state keyed on the identity of the
+    array is exercised); otherwise a fresh write-protected copy is built from the case."""
     dsw = import_dsw()
     k, start, bits, fast, vt = case["k"], case["start"], case["bits"], case["fast"], case["vt"]
-    acc = gens.acc_of(case)
+    acc = gens.acc_of(case) if acc_obj is None else acc_obj
     shuf = table_of(case["table"], k)
     msg = gens.as_message(bits, case["dtype"])
     L = len(bits)
     degs_all = set(G.out_degrees(acc).tolist()) - {0}
     nontrivial = L > 0 and (len(degs_all) >= 2 or shuf is not None or vt > 0)
     f_acc, f_shuf, f_msg = freeze_args(acc, shuf, msg)
+    if acc_obj is not None:
+        f_acc = acc_obj
+        f_shuf = shuf_obj             # the same (writable) table object through the whole sequence
+    elif case.get("layout") == "F":
+        f_acc = np.asfortranarray(acc)      # same values, column-major memory layout
+        f_acc.flags.writeable = False
+    elif case.get("layout") == "strided":
+        wide = np.full((acc.shape[0], 8), -1, dtype=acc.dtype)
+        wide[:, ::2] = acc
+        f_acc = wide[:, ::2]                # a non-contiguous view of a wider table
+        f_acc.flags.writeable = False
+    width = {"int": int, "int64": np.int64, "uint16": np.uint16, "uint64": np.uint64}[case.get("wtype", "int")](len(bits))
     guard = ArgGuard(message=f_msg, accessor=f_acc, shuffles=f_shuf)
     live = int((G.out_degrees(acc) > 0).sum())
 
@@ -92,30 +175,30 @@ def check_roundtrip(ctx, case):
         # with need_path the record of the state path is appended; the strand (and check) come first
         if not (isinstance(enc.value, tuple) and len(enc.value) == (3 if vt > 0 else 2)):
             ctx.fail("encode-shape", "need_path=True: encode returned %r" % (enc.value,))
-            return ctx.done("roundtrip", case, nontrivial)
+            return ctx.done(name, case, nontrivial)
         enc.value = enc.value[:-1] if vt > 0 else enc.value[0]
         ctx.cls("need_path")
     ctx.obs("encode_steps_over_budget", enc.steps / encode_budget(L, live))
     if enc.kind != "ok":
         ctx.fail("encode-" + enc.kind, "encode " + enc.describe())
-        return ctx.done("roundtrip", case, nontrivial)
+        return ctx.done(name, case, nontrivial)
     out = enc.value
     if vt > 0:
         if not (isinstance(out, tuple) and len(out) == 2 and is_strand(out[0]) and is_strand(out[1])
                 and len(out[1]) == vt):
             ctx.fail("encode-shape", "with vt_length=%d encode returned %r" % (vt, out))
-            return ctx.done("roundtrip", case, nontrivial)
+            return ctx.done(name, case, nontrivial)
         strand, check = out
     else:
         if not is_strand(out):
             ctx.fail("encode-shape", "encode returned %r" % (out,))
-            return ctx.done("roundtrip", case, nontrivial)
+            return ctx.done(name, case, nontrivial)
         strand, check = out, None
     w = G.walk(acc, start, strand)
     if not w["ok"]:
         ctx.fail("not-a-walk", "strand %s leaves the graph at position %d (%s)" % (strand, w["pos"], w["reason"]))
     with contextlib.redirect_stdout(io.StringIO()):
-        dec = monitored(dsw.decode, decode_budget(len(strand), L), strand, L, f_acc, start, is_faster=fast,
+        dec = monitored(dsw.decode, decode_budget(len(strand), L), strand, width, f_acc, start, is_faster=fast,
                         vt_check=check, shuffles=f_shuf, verbose=bool(case.get("verbose")))
     ctx.obs("decode_steps_over_budget", dec.steps / decode_budget(len(strand), L))
     if dec.kind != "ok":
@@ -137,10 +220,16 @@ def check_roundtrip(ctx, case):
     if L and L % 2 and fast:
         ctx.cls("fast-odd-length")
     ctx.obs("max_message_bits", L)
-    ctx.done("roundtrip", case, nontrivial)
+    if case.get("layout"):
+        ctx.cls("accessor layout|" + case["layout"])
+    if case.get("wtype", "int") != "int":
+        ctx.cls("width type|" + case["wtype"])
+    if name == "roundtrip":
+        ctx.done(name, case, nontrivial)
+    return nontrivial
 
 
-CHECKS = {"roundtrip": check_roundtrip}
+CHECKS = {"roundtrip": check_roundtrip, "edit_sequence": check_edit_sequence}
 
 
 def floors(agg, tier):
@@ -153,6 +242,10 @@ def floors(agg, tier):
                     name = "%s|deg%d|table%d|check%d" % (mode, d, t, c)
                     if agg["classes"].get(name, 0) < need:
                         out.append("%s observed %d < %d" % (name, agg["classes"].get(name, 0), need))
+    for name, need2 in (("edit sequences (same accessor object overwritten in place)", 100), ("msg|long", 8), ("msg|twin", 20),
+                        ("msg|dec-round", 100), ("accessor layout|F", 100), ("width type|uint16", 100)):
+        if agg["classes"].get(name, 0) < need2:
+            out.append("%s observed %d < %d" % (name, agg["classes"].get(name, 0), need2))
     for m in ("empty", "zeros", "leadzero", "odd"):
         if agg["classes"].get("msg|" + m, 0) < need:
             out.append("message class %s observed %d" % (m, agg["classes"].get("msg|" + m, 0)))
